@@ -126,7 +126,7 @@ func TestRandomHistories(t *testing.T) {
 			t.Fatal(err)
 		}
 		sys.ObserveCopy = tr%2 == 1 && !httpMode
-		w.Put(resetEvent{Ev: "reset", Kek: sys.KEK.Uses(), Via: via})
+		w.Put(resetEvent{Ev: "reset", Kek: OpenKek(sys.KEK.Uses()), Via: via})
 		total += genHistory(sys, r, w, res, nev, noFaults, via, &maxver, tr == 0)
 		sys.Close()
 	}
